@@ -27,6 +27,18 @@ CHECKS = {
    text="Valid streams come from three sources: the frozen xz-utils corpus, fresh xz-utils encodings (when installed) and TLC: LzmaGen (the operation-layer spec in generation mode, simulated with seeded parameters) emits behaviours mixing literal/match/rep0-3/short-rep operations with chunk cuts, state resets, new properties, dictionary resets and raw chunks; each is serialised into a concrete LZMA2 payload and wrapped in container layouts (0-3 blocks, optional size fields, all checks, extra header padding, larger dictionary codes). Every generated stream is first validated at operation level by TLC (TraceLzma: each operation enabled, inside the window, reproducing the plaintext) and by xz-utils; then xz.Reader must return exactly the reference bytes for ReaderConfig.DictCap in {4096, declared, 2x declared}.",
    note="Trusted: TLC, internal/ref serialiser/decoder (agreement of ref, TLC trace validation and xz-utils is required before the library is judged; disagreement is exit 2).",
    technique="TLA+ operation-layer spec in generation mode (TLC -simulate) realised as concrete streams; generator traces validated by TLC; real reader compared with reference decoder"),
+ "C04": dict(cat="model_checking", design="§C04",
+   text="XzDamage.tla applies ~45 named single-field edits to abstract stream layouts and TLC classifies each with the XzFormat acceptor as MustReject / Benign / Weak (and establishes that exactly four edits are benign). Each classified edit is applied to every block of every concrete base stream (library-, reference- and xz-utils-written; CRC32/CRC64/SHA-256/none; single and multi-block), the enclosing CRC-32 re-sealed, and read with xz.Reader: MustReject must fail, everything else must fail or deliver identical content. Byte level: every single-bit flip at every position, substitutions, one-byte insertions/deletions at every offset and bursts <= 32 bits of every base stream with a check; oracle: error, or clean end with identical content.",
+   note="Trusted: TLC/XzFormat acceptor; internal/ref serialiser (its own verdict on each edited file must agree with the classification, else exit 2). Exhaustive over edits x blocks x bases and over bit positions of the small bases; large bases sampled (thorough).",
+   technique="TLA+ acceptor classifies field edits (TLC); classified edits and exhaustive byte-level damage replayed on the real reader"),
+ "C05": dict(cat="model_checking", design="§C05",
+   text="Every proper prefix of every base stream (.xz single/multi-block, all checks, library/reference/xz-utils written; multi-stream files with paddings; raw LZMA2 with flushes and raw chunks; .lzma in the three termination modes) is read with the real readers: the outcome must be an error unless the region grammar XzReader.tla says the prefix is a complete file, and delivered bytes must be a prefix of the content. Each observed (region prefix, outcome) pair is validated by TLC against the grammar.",
+   note="Trusted: TLC/XzReader grammar; region maps from internal/ref. Cuts exhaustive per stream (thorough adds large streams with sampled payload cuts).",
+   technique="exhaustive cut enumeration on the real readers; observed outcomes validated by TLC against a TLA+ region grammar"),
+ "C12": dict(cat="model_checking", design="§C12",
+   text="XzMulti.tla (consistent with XzFormat.ValidFile, checked as an invariant) generates every file shape within the bounds: leading padding {0,4}, 1-2 catalogue streams with all paddings 0..16, longer lists with boundary paddings, trailing garbage, each with the predicted outcome for normal mode (ok, number of streams deliverable before the fault) and for SingleStream. Every shape is realised from a catalogue of five library/xz-utils streams (empty one included) and read with xz.Reader in both modes; bytes and error class are compared with the prediction.",
+   note="Trusted: TLC; internal/ref must give the same verdict as the specification on every realised file (else exit 2).",
+   technique="TLA+ multi-stream model; TLC-generated file shapes with predictions replayed on the real reader"),
 }
 NOT_YET = "check not built yet in this round (framework under construction; see DESIGN.md §8 build order)"
 def main():
